@@ -28,13 +28,17 @@ def stub_register(width, access, name="reg"):
     return Stub()
 
 
-def make_map(layout):
+def make_map(layout, hook=None):
     """Build the real MemoryMap with stub registers; returns (memory_map, [stub...]).
-    Raises whatever the library raises for layouts it refuses."""
+    Raises whatever the library raises for layouts it refuses.  If the layout has a key "late" = k, `hook(mm)`
+    is called just before register k is added (the multiplexer is constructed while its map is still growing:
+    csr.Multiplexer does not freeze the map it is given)."""
     from amaranth_soc.memory import MemoryMap
     mm = MemoryMap(addr_width=layout["aw"], data_width=layout["dw"], alignment=layout.get("align", 0))
     stubs = []
     for k, r in enumerate(layout["regs"]):
+        if hook is not None and layout.get("late") == k:
+            hook(mm)
         stub = stub_register(r["w"], r["acc"])
         need = max(1, -(-r["w"] // layout["dw"]))
         kw = {}
